@@ -8,12 +8,14 @@
 From CM Require Import Model.Run Proofs.RunLift Generated.Tables.
 From CM Require Import Model.MiniPy Model.Rewrites Proofs.RewriteFacts.
 
-Theorem C02_whole_run_lift : C02_lift_statement run_tables_v.
+(** _partial: the premise (every transformer OF THE RUN does not enlarge the measure on text satisfying an invariant Good that
+    it preserves) is a contract; no kernel discharges it yet for a whole run, it is searched. *)
+Theorem C02_whole_run_lift_partial : C02_lift_statement run_tables_v.
 Proof. exact C02_lift. Qed.
-Print Assumptions C02_whole_run_lift.
+Print Assumptions C02_whole_run_lift_partial.
 (** the statement above is the law, not the vacuous branch: on the tables read from the current source every pipeline
     returns early when the transformer reports no change (if a pipeline loses that guard this example stops compiling) *)
-Example C02_lift_not_vacuous : nochange_guarded run_tables_v = true.
+Example C02_lift_not_vacuous : libcst_nochange_guarded run_tables_v = true.
 Proof. reflexivity. Qed.
 
 (** fix-hasattr-call: [hasattr(x, "__call__")] -> [callable(x)]: only the builtin name [callable] is new *)
